@@ -75,10 +75,10 @@ def make_msg(data, as_file=False):
     return msg
 
 
-def run_acceptor_case(L, P, lengths, via_hook=False):
+def run_acceptor_case(L, P, lengths, via_hook=False, entity='AE'):
     """via_hook: the entity is configured with 65536 and its on_association_request hook gives this association
     its own limit L (a per-peer limit, set on the association object the hook receives)."""
-    case = {'role': 'acceptor', 'L': L, 'P': P, 'lengths': lengths, 'via_hook': via_hook}
+    case = {'role': 'acceptor', 'L': L, 'P': P, 'lengths': lengths, 'via_hook': via_hook, 'entity': entity}
     datas = [None if n is None else dg.patterned(n, 1) for n in lengths]
     sent_records = []
 
@@ -95,6 +95,13 @@ def run_acceptor_case(L, P, lengths, via_hook=False):
             def on_association_request(self, asce, assoc):
                 asce.max_pdu_length = L
         ae = fd.make_ae('SRV', [TS], 65536, cls=PerPeer)
+    elif entity == 'StorageAE':
+        # the directory-backed storage entity the package offers (same negotiation, its own constructor)
+        import pynetdicom2
+        import tempfile
+        tmpdir = tempfile.mkdtemp(prefix='vf_c10_')
+        ae = pynetdicom2.StorageAE(tmpdir, 'SRV', 0, [TS], L)
+        ae.timeout = 0.01
     else:
         ae = fd.make_ae('SRV', [TS], L)
     try:
@@ -104,9 +111,12 @@ def run_acceptor_case(L, P, lengths, via_hook=False):
             dul.push_pdu(fd.rq_spec([(1, SOP, [TS])], P))
             for i in range(len(datas)):
                 dul.push_msg({0x0002: SOP, 0x0100: 0x0020, 0x0110: i, 0x0700: 0}, b'\x08\x00\x52\x00\x06\x00\x00\x00STUDY ', 1)
-        acc, fac, exc = fd.run_acceptor(ae, [plan], 65536 if via_hook else L)
+        acc, fac, exc = fd.run_acceptor(ae, [plan])
     finally:
         ae.server_close()
+        if entity == 'StorageAE':
+            import shutil
+            shutil.rmtree(tmpdir, ignore_errors=True)
     if exc is not None:
         raise Violation('C10:exception:%s' % lib_frame(exc), 'acceptor (max %d, peer %d) raised %r' % (L, P, exc), case)
     dul = fac.instances[0]
@@ -126,10 +136,14 @@ def run_acceptor_case(L, P, lengths, via_hook=False):
     return subs[0]['max']
 
 
-def run_requestor_case(L, P, lengths):
+def run_requestor_case(L, P, lengths, entity='ClientAE'):
     from pynetdicom2 import applicationentity, sopclass
-    case = {'role': 'requestor', 'L': L, 'P': P, 'lengths': lengths}
-    ae = applicationentity.ClientAE('CLI', [TS], L)
+    case = {'role': 'requestor', 'L': L, 'P': P, 'lengths': lengths, 'entity': entity}
+    if entity == 'ClientStorageAE':
+        import pynetdicom2
+        ae = pynetdicom2.ClientStorageAE('/nonexistent-not-used', 'CLI', [TS], L)
+    else:
+        ae = applicationentity.ClientAE('CLI', [TS], L)
     ae.timeout = 0.01
 
     def scu(asce, ctx):
@@ -208,7 +222,9 @@ def run_pairs(ctx, job):
     for (L, P) in job['pairs']:
         lengths = data_lengths(P, L)
         for role, fn in (('acceptor', run_acceptor_case), ('requestor', run_requestor_case),
-                         ('acceptor-hook', lambda l, p, ln: run_acceptor_case(l, p, ln, via_hook=True))):
+                         ('acceptor-hook', lambda l, p, ln: run_acceptor_case(l, p, ln, via_hook=True)),
+                         ('acceptor-StorageAE', lambda l, p, ln: run_acceptor_case(l, p, ln[:3], entity='StorageAE')),
+                         ('requestor-ClientStorageAE', lambda l, p, ln: run_requestor_case(l, p, ln[:3], entity='ClientStorageAE'))):
             try:
                 fn(L, P, lengths)
             except Violation as v:
@@ -239,7 +255,7 @@ def run(ctx):
     warnings.simplefilter('ignore')
     ctx.exhaustive = True
     ctx.rule = ('exhaustive grid: (own configured maximum, peer-announced maximum) over %d x %d boundary values '
-                '(0 = no limit .. 2^32-1) x {acceptor, acceptor whose limit is set per peer in the on_association_request hook, requestor} x data lengths {none, 1, f-1, f, f+1, 3f+1} around '
+                '(0 = no limit .. 2^32-1) x {acceptor, acceptor whose limit is set per peer in the on_association_request hook, the storage entities StorageAE / ClientStorageAE, requestor} x data lengths {none, 1, f-1, f, f+1, 3f+1} around '
                 'the fragment size the peer\'s value implies (capped at %d bytes); plus Hypothesis pairs; after real '
                 'negotiation through AssociationAcceptor.handle / request_association every message (data set given as bytes or as a file-like object, alternating) is sent with '
                 'Association.send; non-trivial = the two values differ or one is 0'
@@ -264,6 +280,6 @@ def replay(case):
             raise Violation(key, ent['what'], ent['case'])
         return
     if case['role'] == 'acceptor':
-        run_acceptor_case(case['L'], case['P'], case['lengths'], case.get('via_hook', False))
+        run_acceptor_case(case['L'], case['P'], case['lengths'], case.get('via_hook', False), case.get('entity', 'AE'))
     else:
-        run_requestor_case(case['L'], case['P'], case['lengths'])
+        run_requestor_case(case['L'], case['P'], case['lengths'], case.get('entity', 'ClientAE'))
